@@ -38,6 +38,7 @@ def run(ctx, rep):
     context_guards(rep, prog)
     convert(rep, prog)
     h0(rep, prog)
+    addressing(rep, prog)
     verify(rep, prog)
 
 
@@ -312,6 +313,121 @@ def h0(rep, prog):
 
 LEN_LABEL = {"output": "outlen", "password": "pwdlen", "salt": "saltlen", "secret": "secretlen", "ad": "adlen"}
 INT_LABEL = {"parallelism": "lanes", "m_cost": "m_cost", "t_cost": "t_cost"}
+
+
+DIVS = ("Div", "Rem")
+DIV_CALLS = ("div_euclid", "rem_euclid", "checked_div", "checked_rem", "wrapping_div", "wrapping_rem", "div_floor")
+
+
+def addressing(rep, prog):
+    """ROUND: the memory size m' that the data-independent address generator absorbs (word 3 of its
+    input block, RFC 9106 3.4.1.2 / libsodium generate_addresses) is m rounded *down to a multiple of
+    4*lanes*: the value stored there must be computed through a division or remainder whose divisor
+    depends on the lanes parameter (no function of (m, p) built without one can round).  The word is
+    found by position in the input block, the record field and the constructor argument by data flow."""
+    from ..inline import inline
+    roots = prog.by_path.get("classic::crypto_pwhash::crypto_pwhash", [])
+    ah = prog.by_path.get("argon2::argon2_hash", [])
+    if not roots or not ah:
+        rep.violation("ANCHOR", "argon2_hash", "crypto_pwhash / argon2::argon2_hash not found")
+        return
+    ah = ah[0]
+    # 1. the address input block: constant-index stores 0..5 into one [u64] buffer
+    field = None
+    site = None
+    for k in prog.reach_fns([ah]):
+        g = prog.by_key[k]
+        if g.kind == "closure":
+            continue
+        per = {}
+        for b, i, st in g.assigns():
+            pl = st["place"]
+            idx = None
+            for pe in pl["p"]:
+                if isinstance(pe, dict) and "cidx" in pe:
+                    idx = pe["cidx"]
+                elif isinstance(pe, dict) and "idx" in pe:
+                    idx = evaluate(expr_of_operand(g, {"k": "copy", "l": pe["idx"], "p": []}), {})
+            if isinstance(idx, int) and not isinstance(idx, bool):
+                per.setdefault(pl["l"], {})[idx] = (b, st)
+        for base, m in per.items():
+            if {0, 1, 2, 3, 4, 5} <= set(m):
+                b, st = m[3]
+                rv = st["rv"]
+                x = rv.get("x")
+                e = expr_of_operand(g, x) if x is not None else None
+                while e is not None and e.k == "cast":
+                    e = e.a
+                if e is not None and e.k == "field":
+                    field, site = e.b.split(".")[-1], (g, b)
+        if field is None:
+            # `let header = [pass, lane, slice, m', passes, type]; block.v[..6].copy_from_slice(&header)`
+            for b, i, st in g.assigns():
+                rv = st["rv"]
+                if rv["k"] == "agg" and rv.get("agg") == "array" and len(rv.get("ops", [])) >= 6 and g.locals[st["place"]["l"]]["t"].startswith("[u64;"):
+                    e = expr_of_operand(g, rv["ops"][3])
+                    while e is not None and e.k == "cast":
+                        e = e.a
+                    if e is not None and e.k == "field":
+                        field, site = e.b.split(".")[-1], (g, b)
+    ctx_path = context_field_roles(prog, roots)[1]
+    roles = ctor_roles(prog, roots, ah)
+    par, mc = roles.get("parallelism"), roles.get("m_cost")
+    g, b = site if site is not None else (ah, 0)
+
+    def is_size(fn, o):
+        ls = list(operand_locals(o))
+        return bool(ls) and not o.get("p") and fn.locals[ls[0]]["t"] in ("u32", "u64", "usize")
+
+    def judge(v, operand, fname, where, via):
+        back = v.backward_slice(operand_locals(operand))
+        if mc not in back:
+            return 0                # not a memory-derived size
+        rounded = []
+        for bb, i_, st in v.assigns():
+            rv = st["rv"]
+            if st["place"]["l"] in back and rv["k"] in ("binop", "checked_binop") and rv.get("op") in DIVS:
+                if par in v.backward_slice(operand_locals(rv["r"])):
+                    rounded.append(v.loc(bb))
+        for c2 in v.calls():
+            if c2.dest and c2.dest["l"] in back and c2.name in DIV_CALLS and len(c2.args) == 2 and par in v.backward_slice(operand_locals(c2.args[1])):
+                rounded.append(c2.loc())
+        rep.ob("ROUND", "memory size `%s` of the instance is rounded to a multiple of 4*lanes" % fname, par is not None and bool(rounded),
+               ("field `%s` (%s) is derived from the memory parameter through a division by a lanes-dependent value at %s"
+                % (fname, via, rounded[:2])) if rounded else
+               ("field `%s`%s is built from the memory parameter without any division/remainder by a lanes-dependent value: "
+                "memory sizes that are not a multiple of 4*lanes hash differently from RFC 9106"
+                % (fname, (" (absorbed as m' at %s)" % g.loc(b)) if field else "")), loc=where)
+        return 1
+
+    # 2. the record literal that sets the field (every memory-derived size of a record other than the
+    # Argon2 context - which keeps the requested m for H0 - when the input block was not recognised),
+    # 3. its value seen from argon2_hash: constructors folded into the view, or their call sites
+    v = inline(prog, ah)
+    nsites = 0
+    folded = set(getattr(v, "inlined", []))
+    for b_, i_, st in v.assigns():
+        rv = st["rv"]
+        if rv["k"] == "agg" and rv.get("agg") == "adt" and rv.get("path", "").startswith("argon2::") and rv.get("path") != ctx_path:
+            for nm, o in zip(rv.get("fields", []), rv.get("ops", [])):
+                if (field is None or nm == field) and is_size(v, o):
+                    nsites += judge(v, o, nm, v.loc(b_), "record literal")
+    for f in prog.fns:
+        if f.path in folded or f.key == ah.key or f.kind == "closure":
+            continue
+        for b_, i_, st in f.assigns():
+            rv = st["rv"]
+            if rv["k"] == "agg" and rv.get("agg") == "adt" and rv.get("path", "").startswith("argon2::") and rv.get("path") != ctx_path:
+                for nm, o in zip(rv.get("fields", []), rv.get("ops", [])):
+                    if not ((field is None or nm == field) and is_size(f, o)):
+                        continue
+                    pk = cm.view_info(f, list(operand_locals(o))[0])[0]
+                    if pk not in cm.params_of(f):
+                        continue
+                    for c in v.calls():
+                        if any(t.key == f.key for t in prog.callee_fns(c)) and pk - 1 < len(c.args):
+                            nsites += judge(v, c.args[pk - 1], nm, c.loc(), "constructor argument #%d" % pk)
+    rep.floor("memory-derived sizes stored in the Argon2 instance record", nsites, 1)
 
 
 def _field_role(e, froles):
